@@ -54,34 +54,43 @@ func refLineTable(data []byte) []int {
 	return append(widths, col)
 }
 
-// refPos is the driver's own position function (C13 "spans" mode, real files): line and Col8 column
-// of a byte offset that lies on a character boundary; ok=false for a mid-character offset or when
-// an invalid byte precedes it on its line.  Checked against SrcText on every TLC-exported unit case.
-func refPos(data []byte, off int) (line, col int, boundary, colDefined bool) {
+// refTable is the driver's own position function (C13 "spans" mode, real files), tabulated for every
+// byte offset 0..len(data): line and Col8 column of an offset that lies on a character boundary;
+// boundary=false for a mid-character offset, colDefined=false when an invalid byte precedes it on its
+// line.  Checked against SrcText on every boundary of every TLC-exported unit case (runUnits).
+type refEntry struct {
+	line, col            int
+	boundary, colDefined bool
+}
+
+func refTable(data []byte) []refEntry {
+	tab := make([]refEntry, len(data)+1)
 	line, c := 1, 0
-	colDefined = true
+	def := true
 	i := 0
-	for i < off && i < len(data) {
+	for i < len(data) {
+		tab[i] = refEntry{line, c + 1, true, def}
 		r, sz := utf8.DecodeRune(data[i:])
-		if i+sz > off {
-			return line, c + 1, false, colDefined
+		for j := 1; j < sz; j++ {
+			tab[i+j] = refEntry{line, c + 1, false, def}
 		}
 		switch {
 		case r == '\n':
 			line++
 			c = 0
-			colDefined = true
+			def = true
 		case r == '\t':
 			c += 8 - c%8
 		default:
 			if r == utf8.RuneError && sz == 1 {
-				colDefined = false
+				def = false
 			}
 			c++
 		}
 		i += sz
 	}
-	return line, c + 1, i == off, colDefined
+	tab[len(data)] = refEntry{line, c + 1, true, def}
+	return tab
 }
 
 type reported struct {
